@@ -1,5 +1,6 @@
 import Csproto.Props.C04
 import Csproto.Model.GenDec
+import Csproto.Proofs.GenRecords
 import Csproto.Bridge.Templates
 /-
   C07 — Unknown fields survive Unmarshal followed by Marshal.
@@ -30,7 +31,7 @@ theorem marshal_reemits_unknown (S : Schema) (md : MD) (fs : List F) (unk : Byte
   · rw [h] at he; cases he
   · rw [h] at hb; cases hb
     rcases hcase with ⟨ops, ho, hbs⟩ | ⟨_, _, hnil⟩
-    · refine ⟨wiresOf ops, hbs, ?_⟩
+    · refine ⟨Gen.wiresOf ops, hbs, ?_⟩
       have := (fields_exact S md fs ops hok ho).1
       exact this.symm
     · subst hnil
@@ -57,5 +58,17 @@ def sample : Bytes := [0x08, 0x96, 0x01, 0x15, 1, 2, 3, 4, 0x19, 1, 2, 3, 4, 5, 
   0xf8, 0xff, 0xff, 0xff, 0x0f, 0x05]
 example : unmarshal [[]] false [] sample = .ok ([], sample) := by rfl
 example : marshal [[]] [] [] sample = .ok sample := by rfl
+
+/-- **unknown fields interleaved with known scalar fields**: whatever the order, exactly the unknown
+    records' raw bytes are retained, in wire order -/
+theorem unknown_retained_in_order (S : Schema) (fast : Bool) (md : MD) (rs : List WRec) (hok : ∀ r ∈ rs, r.OK md)
+    (fs : List F) (unk : Bytes) (h : unmarshal S fast md (wiresW rs) = .ok (fs, unk)) :
+    unk = unknownBytes rs := by
+  rw [unmarshal_records S fast md rs hok] at h
+  split at h
+  · cases h
+  · injection h with h
+    have h2 : unk = (rs.foldl (WRec.apply md) (initFields md, [])).2 := by rw [h]
+    rw [h2, fold_unknown]; simp
 
 end Csproto.C07
